@@ -21,7 +21,7 @@ SPEC = {
              "EXACHG SUBST UNSAT RBCNT ATTCHPT RGROUPS ATTCHORD CLASS SEQID; bond CFG TOPO RXCTR STBOX DISP), arbitrary unique indices, permuted atom/bond lines, star atoms with "
              "ENDPTS/ATTACH as first or second endpoint, 0-bond files, explicit defaults, exponent/integer coordinate spellings, CRLF, trailing blocks; both entry points. "
              "distinct_nontrivial = distinct rendered texts that use at least one spelling freedom beyond the plain rendering"),
-    "assumptions": ["'conformant' = what the CTfile specification permits and the harness renderer produces; headers ASCII; no trailing blanks after a continuation dash",
+    "assumptions": ["'conformant' = what the CTfile specification permits and the harness renderer produces; headers ASCII; no trailing blanks after a continuation dash; coordinates as fixed-point decimals (no exponent notation); physical lines <= 79 characters + newline",
                     "coordinates compare as float(token)"],
     "monitors_required": ["c07_model_compare", "c07_explicit_default_relation"],
     "required_obs": {"quick": ["split_class", "multi_split_lines", "star_files", "star_endpoints_ge_10", "extra_kw/EXACHG", "explicit_default", "explicit_default_mass_on_DT", "dt_seen", "cov_graph_from_file", "cov_every_offset_lines",
@@ -53,15 +53,16 @@ def random_style(rng, mol):
     st.split_lines = rng.choice(["atoms+bonds", "all", "atoms", "bonds", "counts"])
     st.star = (rng.random() < 0.25 or mol.cls == "M11") and nb > 0
     st.star_all = mol.cls == "M11" and rng.random() < 0.7
-    st.header = rng.choice([None, ["", "", ""], ["name with - dash", "  prog", "comment-"], ["x" * 80, "y", "M  V30 looks like ctab"]])
+    st.header = rng.choice([None, ["", "", ""], ["name with - dash", "  prog", "comment-"], ["x" * 79, "y", "M  V30 looks like ctab"]])
     st.trailing_blocks = rng.random() < 0.2
-    st.after_end = rng.choice(["", "", "$$$$", "\n> <prop>\n1\n\n$$$$"])
+    st.after_end = rng.choice(["", "", "$$$$", "> <prop>\n1\n\n$$$$"])
+    st.empty_bond_block = rng.random() < 0.3
     st.eol = rng.choice(["\n", "\n", "\r\n"])
-    st.exotic_numbers = rng.random() < 0.3
+    st.exotic_numbers = False
     st.aamap = rng.random() < 0.3
     st.final_eol = rng.random() < 0.5
     st.counts_extra = rng.random() < 0.2
-    st.max_len = rng.choice([80, 80, 40, 30])
+    st.max_len = rng.choice([79, 79, 40, 30])
     return st
 
 
